@@ -83,6 +83,8 @@ def run_case(case, res):
         # packing a NON-CONTIGUOUS matrix (transposed view, column slice) and a multi-step history on one packed tensor
         for name, mk in (("transposed-view", lambda: torch.randint(0, 16, (shape[1], shape[0]), dtype=torch.uint8).t()), ("column-slice", lambda: torch.randint(0, 16, (shape[0], 2 * shape[1]), dtype=torch.uint8)[:, ::2])):
             for packing, reorder in ((P.AWQPacking.V1, False), (P.AWQPacking.V1, True), (P.AWQPacking.V2, False)):
+                if packing == P.AWQPacking.V2 and (shape[1] % 64 or shape[0] % 4):
+                    continue  # the v2 layout is defined for in_features % 64 == 0 and out_features % 4 == 0 only
                 x = mk()
                 xc = x.contiguous().clone()
                 with Session(res) as m, NumpyBridge(m):
